@@ -244,9 +244,8 @@ where
                                                     "to sink: {message:?}"
                                                 );
                                                 if taken == max
-                                                    && !end.load(AtomicOrdering::Acquire)
+                                                    && !end.swap(true, AtomicOrdering::AcqRel)
                                                 {
-                                                    end.store(true, AtomicOrdering::Release);
                                                     {
                                                         let source_talkback =
                                                             source_talkback.load();
@@ -270,15 +269,21 @@ where
                                         Message::Pull => {
                                             panic!("source must not pull");
                                         },
+                                        // the end of the source may race with the delivery that
+                                        // reaches `max` on another thread: whoever sets `end` ends the sink
                                         Message::Error(error) => {
-                                            call!(
-                                                sink,
-                                                Message::Error(error),
-                                                "to sink: {message:?}"
-                                            );
+                                            if !end.swap(true, AtomicOrdering::AcqRel) {
+                                                call!(
+                                                    sink,
+                                                    Message::Error(error),
+                                                    "to sink: {message:?}"
+                                                );
+                                            }
                                         },
                                         Message::Terminate => {
-                                            call!(sink, Message::Terminate, "to sink: {message:?}");
+                                            if !end.swap(true, AtomicOrdering::AcqRel) {
+                                                call!(sink, Message::Terminate, "to sink: {message:?}");
+                                            }
                                         },
                                     }
                                 }
